@@ -472,6 +472,8 @@ META["explanation"] += " " + 'Also (rounds 11-12): free-slot search covers 0..ca
 
 META["explanation"] += " " + 'Also (round 13): no grace period sleeps with rcu_registry_lock held (shared from C02.locks): registration must be possible at any moment.'
 
+META["explanation"] += " " + 'Also (round 14): bp lock order shared from C02.lockorder.'
+
 RULES = [
     ("C15.listops", rule_listops),
     ("C15.bpowner", rule_bp_owner),
